@@ -599,6 +599,19 @@ class BuiltinMixin:
             return Val(FLOAT, z3.ToReal(v.t), exact_int=v.t)
         raise Unsupported(f"float({v.ty})")
 
+    # -- millisecond alignment (specification vocabulary; single modulus keeps the arithmetic simple) ----
+    def x_bi_ms_aligned(self, args, kw, st, node):
+        v = args[0]
+        if v.ty not in (DT, TD):
+            raise Unsupported(f"ms_aligned({v.ty})")
+        off = v.x.get("off", 0) if v.ty == DT else 0
+        return Val(BOOL, (v.t + off) % 1000 == 0)
+
+    def x_bi_floor_to_ms(self, args, kw, st, node):
+        v = args[0]
+        off = v.x.get("off", 0)
+        return Val(DT, v.t - ((v.t + off) % 1000), **v.x)
+
     # -- ghost maps (specification only) ---------------------------------------------------------
     def x_bi_mnew(self, args, kw, st, node):
         return Val(Ty("IntMap"), z3.K(I, z3.IntVal(-1)))
@@ -613,6 +626,20 @@ class BuiltinMixin:
     def x_bi_mset2(self, args, kw, st, node):
         m, a, b, v = args
         return Val(Ty("IntMap2"), z3.Store(m.t, a.t, b.t, v.t))
+
+    def x_bi_mremap(self, args, kw, st, node):
+        """Ghost: every entry equal to `frm` becomes `to`."""
+        m, frm, to = args
+        j = z3.Int("j!rm")
+        return Val(Ty("IntMap"), self.def_array(st, j, z3.If(z3.Select(m.t, j) == frm.t, to.t, z3.Select(m.t, j))))
+
+    def x_bi_filter_pos(self, args, kw, st, node):
+        """Ghost: position in a filter-comprehension result of source index i (valid when the element was kept)."""
+        lst = args[0]
+        if "pos" not in lst.x:
+            raise Unsupported("filter_pos of a list that is not a filter comprehension result")
+        j = z3.Int("j!fp")
+        return Val(Ty("IntMap"), self.def_array(st, j, lst.x["pos"](j)))
 
     def x_bi_sort_inv(self, args, kw, st, node):
         """Ghost: new position of old element i under the most recent sort of this list (pinv)."""
